@@ -5,6 +5,7 @@ import (
 	"fmt"
 	"reflect"
 	"strings"
+	"unsafe"
 
 	"github.com/bytedance/sonic"
 	"github.com/bytedance/sonic/option"
@@ -105,7 +106,53 @@ func drawC09(t *rapid.T) Case {
 		c.PrelB = append(c.PrelB, call(false))
 	}
 	c.Env = []int{0, 0, 0, 1, 1, 2, 3, 4, 4, 5}[rapid.IntRange(0, 9).Draw(t, "env")]
+	// one case in three: three struct types whose type hash selects the same bucket of the 4096-bucket program
+	// caches (the last bucket, the first one, or one in the middle), each used by value and by pointer in the
+	// probe: collisions and probe sequences that wrap around the table
+	if rapid.IntRange(0, 2).Draw(t, "collide") == 0 {
+		bucket := []uint32{4095, 4095, 0, 1234}[rapid.IntRange(0, 3).Draw(t, "bucket")]
+		for _, spec := range c09Colliding(bucket, 3) {
+			ty, _ := tv.Build(spec)
+			v := copyValue(gen.Value(t, ty, gen.ValOpt{RoundTrip: true, HTMLFree: true}))
+			b, _ := json.Marshal(tv.Dump(v))
+			c.Types = append(c.Types, TypedValue{T: spec, V: b})
+			idx := len(c.Types) - 1
+			c.Probe = append(c.Probe, C09Call{Op: "marshal", Types: []int{idx}, Shape: rapid.IntRange(0, 1).Draw(t, "cshape")},
+				C09Call{Op: "unmarshal", Types: []int{idx}})
+		}
+	}
 	return c
+}
+
+// typeHash reads the hash field of the runtime type descriptor (abi.Type: Size_, PtrBytes, Hash).
+func typeHash(t reflect.Type) uint32 {
+	e := (*[2]unsafe.Pointer)(unsafe.Pointer(&t))
+	return *(*uint32)(unsafe.Add(e[1], 2*unsafe.Sizeof(uintptr(0))))
+}
+
+var c09CollideCache = map[uint32][]tv.TypeSpec{}
+
+// c09Colliding returns n struct types struct{ F<i> int64 `json:"f"`; G string `json:"g"` } whose hash & 4095 == bucket.
+func c09Colliding(bucket uint32, n int) []tv.TypeSpec {
+	if got := c09CollideCache[bucket]; len(got) >= n {
+		return got[:n]
+	}
+	var out []tv.TypeSpec
+	for i := 0; len(out) < n && i < 400000; i++ {
+		spec := tv.TypeSpec{K: "struct", Fields: []tv.FieldSpec{
+			{Name: fmt.Sprintf("F%d", i), Tag: `json:"f"`, T: tv.TypeSpec{K: "int64"}},
+			{Name: "G", Tag: `json:"g"`, T: tv.TypeSpec{K: "string"}},
+		}}
+		ty, err := tv.Build(spec)
+		if err != nil {
+			continue
+		}
+		if typeHash(ty)&4095 == bucket {
+			out = append(out, spec)
+		}
+	}
+	c09CollideCache[bucket] = out
+	return out
 }
 
 type c09N5 struct {
